@@ -135,6 +135,49 @@ ROUND4 = {
  "C20-mutH": ("principal-angle cosines np.isclose to 1 snapped to 1", "close but unequal subspaces (angles below 4.5e-3 rad)"),
 }
 
+ROUND5 = {
+ "C01-mutI": ("demodulate reads samples with ravel(order='K'), writes indexes back in C order", "non-C-ordered 2-D received arrays"),
+ "C01-mutJ": ("PSK phases from a float-step np.arange(phi, phi+2pi, 2pi/M): sometimes M+1 points", "PSK(M).setPhaseOffset(phi) with phi in about [1.72, 2pi)"),
+ "C02-mutI": ("used-subcarrier index rewritten as centre / un-centre with fft//2 twice", "odd FFT sizes"),
+ "C02-mutJ": ("equaliser keeps its used-subcarrier index array while the number of used subcarriers is unchanged", "equaliser used, then set_parameters to another fft size with the same used count"),
+ "C03-mutI": ("tap merging by np.add.reduceat over first occurrences", "profile whose delays are not listed in increasing order"),
+ "C03-mutJ": ("SuChannel caches the path-loss-scaled impulse response; not cleared by corrupt_data_in_freq_domain", "path loss, transmission, response read, then a frequency-domain transmission"),
+ "C04-mutI": ("gmd: invperm[k1] = j (no-op) instead of invperm[i] = j", "GMD link with 5 or more layers"),
+ "C04-mutJ": ("MMSE filter as solve(H H^H + nv I_Nr, H)^H", "Nr > Nt and a vanishing noise variance"),
+ "C05-mutI": ("stop rule cached, re-evaluated only after a merged repetition", "_keep_going reading num_skipped_reps"),
+ "C05-mutJ": ("get_unpacked_params_list cached; not dropped by params[name] = value", "simulate, item assignment of a new grid, simulate again"),
+ "C06-mutI": ("Result memoises (mean, variance); cache not reset by merge()", "statistics read, merge, statistics read again"),
+ "C06-mutJ": ("get_pack_indexes looks float values up with np.isclose(rtol=1e-9)", "grids with values differing in the last bits (3*0.1 vs 0.3)"),
+ "C07-mutI": ("ignored-key test `key not in (\"rep_max\")` (a string: substring test)", "changed parameter whose name is a substring of rep_max (p, m, x, rep, max)"),
+ "C07-mutJ": ("os.replace moved inside the with-block of the temporary file", "hard kill between rename and close"),
+ "C08-mutI": ("_update_pathloss_big_matrix skipped when the expanded matrix already has the channel's shape", "re-randomize with another split of equal totals after set_pathloss"),
+ "C08-mutJ": ("noise branch restructured: noise_var == 0.0 takes neither branch", "noisy block, noise_var = 0.0, another block (last_noise stale)"),
+ "C09-mutI": ("EnhancedBD memoises the ext-interference covariance by channel object identity", "same precoder object and channel object across realisations"),
+ "C09-mutJ": ("power scaling with the spectral norm instead of Frobenius in fixed/naive reduction", "2 or more kept streams"),
+ "C10-mutI": ("receive filters shrunk with enumerate() instead of zip(mod_users, ...)", "stream reduction for a user that is not user 0"),
+ "C10-mutJ": ("_calc_Q_impl reads the channel without path loss", "path loss set, leakage-based iterative solver"),
+ "C11-mutI": ("path loss not re-expanded when the new channel has the same total antenna counts", "init, set_pathloss, init with another per-user split of equal totals"),
+ "C11-mutJ": ("sum capacity as log2(prod(1 + SINR))", "total above 1024 bit (product overflows)"),
+ "C12-mutI": ("Es multiplied into the caller's gain array in place on a sorted fast path", "Es != 1, already-descending float gains, second call on the same array"),
+ "C12-mutJ": ("closed-form water level (Pt + sum inv)/k, powers mu - inv", "noise/(Es g) larger than about 1e7 times the budget"),
+ "C13-mutI": ("METIS LOS/NLOS masks replaced by np.nonzero(...)[0]", "2-D distance / wall-count grids with mixed rows"),
+ "C13-mutJ": ("free-space C refreshed lazily by the loss query only", "setter, then distance-for-a-loss query before any loss query"),
+ "C14-mutI": ("rays summed with out= into the previous block when the size repeats", "equal-sized consecutive requests, earlier block kept"),
+ "C14-mutJ": ("request start snapped to the grid with int(t/Ts + 1e-9)", "positions beyond 2^24 samples after a skip"),
+ "C15-mutI": ("lattice offsets built by np.roll after the Gray permutation", "PSK with an offset that is a multiple of 2pi/M"),
+ "C15-mutJ": ("count_bit_errors casts the second operand to the first's dtype", "narrow integer dtype first, wider values second"),
+ "C16-mutI": ("PSK SER applies sin(pi/M) as a dB shift in place on the caller's SNR array", "float SNR array reused across calls"),
+ "C16-mutJ": ("class-level min-distance dict keyed by M, read by the QAM formula", "QAM(M), then PSK(M), then a query on the QAM"),
+ "C17-mutI": ("ndarray encoder writes ravel(order='K')", "non-C-ordered multi-dimensional arrays"),
+ "C17-mutJ": ("derived file name memoised per template", "save, params changed in place, save again with the same template"),
+ "C18-mutI": ("shift 0 returns the root array itself; user sequence normalised in place", "shared root, shift-0 user with normalize=True, then another user"),
+ "C18-mutJ": ("batched LS allocates its output with the pilots' dtype", "real pilots, batched call, complex channel"),
+ "C19-mutI": ("Cell3Sec radius setter sizes the sectors before storing the new radius", "radius shrunk, then users added in a sector"),
+ "C19-mutJ": ("distance matrix reads the construction-time cell positions", "cell moved after construction"),
+ "C20-mutI": ("reflect caches I - 2Q built in place on oQ", "reflect, then oProject on the same object"),
+ "C20-mutJ": ("gmd without invperm: perm[k1] = i", "5 or more singular values"),
+}
+
 
 def main():
     det, conf = {}, {}
@@ -152,6 +195,7 @@ def main():
     both = dict(ROUND2)
     both.update(ROUND3)
     both.update(ROUND4)
+    both.update(ROUND5)
     for mid, (what, needs) in sorted(both.items()):
         d = "/verif/seeded/%s" % mid
         if not os.path.isdir(d):
@@ -162,7 +206,7 @@ def main():
         for o in dd.get("obligations", []):
             kinds.append(o)
         meta = {
-            "property": mid[:3], "name": mid, "round": 4 if mid in ROUND4 else 3 if mid in ROUND3 else 2,
+            "property": mid[:3], "name": mid, "round": 5 if mid in ROUND5 else 4 if mid in ROUND4 else 3 if mid in ROUND3 else 2,
             "what_changed": what, "needs_to_manifest": needs,
             "caught_by": dd.get("obligations", []),
             "check_exit_with_change_applied": dd.get("exit"),
